@@ -357,7 +357,9 @@ fn run<T: E, N: ArrayLength>(kv: &KV, tracked: bool) -> String {
             let d = drop_report(tracked);
             let mut f = discipline(&s);
             if res != "panicked" && (res == "ok") != (l == n) { f.push("length-check".to_string()); }
-            format!("res={} items=[{}]{} | orc={}", res, show_nats(items), d, orc(f))
+            // C07: at most N + 1 items are pulled, whatever the element type's size (a zero-sized one has an unbounded Vec capacity)
+            if polls > n as u64 + 1 { f.push(format!("over-polled-{}-of-at-most-{}", polls, n + 1)); }
+            format!("res={} items=[{}] polls={}{} | orc={}", res, show_nats(items), polls, d, orc(f))
         }
         "box_map" | "box_zip" => {
             start(-1);
